@@ -2652,7 +2652,10 @@ func (p *parser) parseLambdaExpr(allowTuple, allowCmd, allowRangeExpr bool) (x a
 			}
 			p.expect(token.RPAREN)
 		case token.LBRACE: // {
+			// like a function literal, the block has its own labels
+			p.openLabelScope()
 			body = p.parseBlockStmt()
+			p.closeLabelScope()
 		default:
 			rhs = []ast.Expr{p.parseExpr(false, false, false)}
 		}
